@@ -83,6 +83,14 @@ func c15Specials(full bool) []c15Special {
 			out = append(out, c15Special{fmt.Sprintf("key=%q", s), data.Point{Type: "kx", Key: s, Value: 2}, false})
 		}
 	}
+	// the node's own description with white space at its ends (the import appends its marker to the top node's description and to nothing else)
+	descs := []string{" a ", "x\n"}
+	if full {
+		descs = []string{" a ", "a ", " a", "x\n", "\nlead", "multi\nline", " ", "a\u00a0", "a\n\n", "\ta"}
+	}
+	for _, s := range descs {
+		out = append(out, c15Special{fmt.Sprintf("description=%q", s), data.Point{Type: data.PointTypeDescription, Text: s}, false})
+	}
 	for _, v := range vals {
 		out = append(out, c15Special{fmt.Sprintf("value=%v", v), data.Point{Type: "vx", Value: v}, false})
 	}
@@ -441,14 +449,23 @@ func c15Run(x *mc.X, sp c15Special, shape c15Shape, pos, target int, preserve bo
 			return mc.Outcome{Violation: "read after import failed: " + err.Error(), Key: "export-import/read-failed"}
 		}
 		var impTop []string
+		wantDesc := top.desc + " (import)"
+		if d, ok := exp.pts["description\x000"]; ok {
+			wantDesc = d.Text + " (import)" // (the special content may be the top node's description itself)
+		}
 		for _, k := range kids {
 			d, _ := k.Points.Find(data.PointTypeDescription, "")
-			if d.Text == top.desc+" (import)" {
+			if d.Text == wantDesc {
 				impTop = append(impTop, k.ID)
 			}
 		}
 		if len(impTop) != 1 {
-			return fail("top-node", fmt.Sprintf("expected exactly one child of the import parent described %q, found %d", top.desc+" (import)", len(impTop)))
+			var have []string
+			for _, k := range kids {
+				d, _ := k.Points.Find(data.PointTypeDescription, "")
+				have = append(have, fmt.Sprintf("%q", d.Text))
+			}
+			return fail("top-node", fmt.Sprintf("expected exactly one child of the import parent described %q (the exported top node's description plus the marker), found %d; children are described %v", wantDesc, len(impTop), have))
 		}
 		imp, err := c15ReadTree(dst, parent, impTop[0], map[string]bool{})
 		if err != nil {
